@@ -28,8 +28,8 @@ func main() {
 		Extra:     faultEnumeration,
 		KF: func(uses map[string]int, src string) []string {
 			var k []string
-			if uses["fault-error-level2"] > 0 {
-				k = append(k, "C05-3")
+			if uses["xpcall"] > 0 || uses["closure-after-xpcall-error"] > 0 {
+				k = append(k, "C05-5") // only matters when a message handler itself fails
 			}
 			return k
 		},
@@ -38,6 +38,8 @@ func main() {
 }
 
 var corpus = []string{
+	`local t = {[""] = function() error("x") end}; emit(pcall(function() t[""]() end))`,
+	`local co = coroutine.create(math.max); emit(coroutine.resume(co, 1, 5, 3)); emit(coroutine.status(co), coroutine.running())`,
 	`emit(pcall(error)); emit(pcall(error, nil)); emit(pcall(error, "s")); emit(pcall(error, "s", 0)); emit(pcall(error, {1})); emit(pcall(error, true)); emit(pcall(error, 12, 0))`,
 	`local function f() error("lvl1") end; local function g() error("lvl0", 0) end; emit(pcall(f)); emit(pcall(g)); emit(pcall(function() local t = nil; return t.x end)); emit(pcall(function() return 1 + {} end)); emit(pcall(function() return {} < {} end)); emit(pcall(function() return "a" .. {} end)); emit(pcall(function() local f; f() end))`,
 	`local log = {}; local ok, e = xpcall(function() error("E") end, function(m) log[#log+1] = m; return "handled:" .. m end); emit(ok, e, #log)`,
@@ -82,7 +84,7 @@ func faultEnumeration(w *lib.Writer, tier string, seed uint64) {
 				coq = "CProg [] (Outcome [] (OOk []))"
 			}
 			id := w.Add(lib.Case{Input: map[string]any{"src": src, "seed": seed, "idx": idx, "mode": mode, "emit_fault": k, "fault_string": str},
-				Observed: out.Summary(), Class: "emit-fault", Nontrivial: true, Coq: coq})
+				Observed: out.Summary(), Class: "emit-fault", Nontrivial: true, Coq: coq, KF: []string{"C05-5"}})
 			if out.GoFail != "" {
 				w.GoFail(id, out.GoFail)
 			}
